@@ -16,4 +16,5 @@ RC=$?
 echo "$OUT" | grep -E "^VIOLATION|^KNOWN-FINDING" | head -6
 echo "$NAME: check $PROP exit=$RC ($( [ $RC -ne 0 ] && echo CAUGHT || echo MISSED ))"
 git -C /repo worktree remove --force $WT
+rm -f /verif/build/bin/*-???????? 2>/dev/null
 exit $RC
